@@ -176,6 +176,7 @@ def gen_value(S, tname, rng, depth=0, maxdepth=3, p_present=0.7):
     vals = {}
     for f in t['fields']:
         k, ty = f['kind'], f.get('type')
+        if f.get('deprecated'): continue
         if not f['required'] and rng.random() > p_present: continue
         if k == 'scalar': vals[f['name']] = bytes(rng.getrandbits(8) for _ in range(SCALARS[ty]))
         elif k == 'struct': vals[f['name']] = bytes(rng.getrandbits(8) for _ in range(S['structs'][ty]['size']))
